@@ -186,7 +186,7 @@ class RecvFullMPI(_StageMPI):
             yield 'from_the_previous_rank_with_matching_tag', recvs[0][2] == S.prev and bool(seq(recvs[0][3], 0 * 100 + st.k)) is True and recvs[0][4] is st.comm
             yield 'start_value_is_the_received_value', veq(L.u[0], recvs[0][5])
             er = L.prob.find_eval(L.f[0])
-            yield 'rhs_of_received_value_re_evaluated_at_step_start', er is not None and bool(veq(er.u, L.u[0])) is True and bool(seq(er.t, L.time)) is True
+            yield 'rhs_of_received_value_re_evaluated_at_step_start', er is not None and bool(veq(er.u, L.u[0])) is True and bool(seq(er.t, L.status.time)) is True
             yield 'receive_completed', ('Wait', ('irecv', S.prev, recvs[0][3])) in log or any(e[0] == 'Wait' for e in log)
         else:
             yield 'start_value_untouched', veq(L.u[0], st.u0_old)
